@@ -60,11 +60,27 @@ Qed.
 Section Mgr.
   Variables (split split_s : str -> option (str * str)) (ncname : str -> bool).
 
+  (* SB = true: one manager on the store, every cache entry is bound now.
+     SB = false: other managers may bind on the same store; what survives is that every
+     cache entry concatenates back to its IRI. *)
+  Variable SB : bool.
+
+  Definition qgB (s : mst) (u : str) (X : Prop) (q : qn) : Prop :=
+    (SB = true -> dget (p2n s) (fst (fst q)) = Some (snd (fst q))) /\ (X -> snd (fst q) ++ snd q = u).
+
+  Lemma qg_qgB s u X q : qg s u X q -> qgB s u X q.
+  Proof. intros [A C]. split; auto. Qed.
+
   Definition cinv (s : mst) : Prop :=
-    (forall u q, dget (cache s) u = Some q -> qg s u (exact split u) q) /\
-    (forall u q, dget (cache_s s) u = Some q -> qg s u (exact split_s u) q).
+    (forall u q, dget (cache s) u = Some q -> qgB s u (exact split u) q) /\
+    (forall u q, dget (cache_s s) u = Some q -> qgB s u (exact split_s u) q).
 
   Definition good (s : mst) : Prop := bij s /\ cinv s.
+
+  Lemma boundb_true s q : boundb s q = true -> dget (p2n s) (fst (fst q)) = Some (snd (fst q)).
+  Proof.
+    unfold boundb. destruct (@opt_eqb_spec _ _ str_eqb_spec (dget (p2n s) (fst (fst q))) (Some (snd (fst q)))); congruence.
+  Qed.
 
   Lemma good_init : good m_init.
   Proof.
@@ -165,14 +181,14 @@ Section Mgr.
 
   Lemma good_set_cache s u q : good s -> qg s u (exact split u) q -> good (set_cache s u q).
   Proof.
-    intros [Hb [C1 C2]] Hq. split; [exact Hb|]. split; [|exact C2].
+    intros [Hb [C1 C2]] Hq. apply qg_qgB in Hq. split; [exact Hb|]. split; [|exact C2].
     intros u' q'. unfold set_cache; cbn [cache set_caches]. rewrite dget_dset.
     destruct (str_eqb_spec u' u) as [->|]; [intros X; inversion X; subst; exact Hq|apply C1].
   Qed.
 
   Lemma good_set_cache_s s u q : good s -> qg s u (exact split_s u) q -> good (set_cache_s s u q).
   Proof.
-    intros [Hb [C1 C2]] Hq. split; [exact Hb|]. split; [exact C1|].
+    intros [Hb [C1 C2]] Hq. apply qg_qgB in Hq. split; [exact Hb|]. split; [exact C1|].
     intros u' q'. unfold set_cache_s; cbn [cache_s set_caches]. rewrite dget_dset.
     destruct (str_eqb_spec u' u) as [->|]; [intros X; inversion X; subst; exact Hq|apply C2].
   Qed.
@@ -199,15 +215,17 @@ Section Mgr.
   Lemma m_compute_good s u gen :
     good s ->
     let r := m_compute split s u gen in
-    good (fst r) /\ (forall q, snd r = inl q -> qg (fst r) u (exact split u) q).
+    good (fst r) /\
+    (SB = true \/ cache_okb s u = true -> forall q, snd r = inl q -> qg (fst r) u (exact split u) q).
   Proof.
-    intros Hg. unfold m_compute.
+    intros Hg. unfold m_compute. unfold cache_okb.
     destruct (dget (cache s) u) as [q|] eqn:Ec.
-    { simpl. split; [auto|]. intros q' X; inversion X; subst.
-      destruct Hg as [_ [C _]]. now apply C. }
-    destruct (negb (valid_uri u)); [simpl; split; [auto|discriminate]|].
+    { simpl. split; [auto|]. intros Hh q' X; inversion X; subst.
+      destruct Hg as [_ [C _]]. destruct (C _ _ Ec) as [A1 A2]. split; [|exact A2].
+      destruct Hh as [Hh|Hh]; [auto|now apply boundb_true]. }
+    destruct (negb (valid_uri u)); [simpl; split; [auto|intros _ q; discriminate]|].
     destruct (split_or_whole split s u) as [[ns0 nm0]|] eqn:Es;
-      [|simpl; split; [auto|discriminate]].
+      [|simpl; split; [auto|intros _ q; discriminate]].
     set (s1 := m_insert_strie s ns0).
     assert (Hg1 : good s1) by now apply good_insert_strie.
     set (nn := pick_ns s1 ns0 nm0 u).
@@ -217,8 +235,8 @@ Section Mgr.
       { split; cbn [fst snd]; [now apply H3|]. intros Hx. apply pick_ns_exact.
         eapply split_or_whole_exact; eauto. }
       split; [now apply good_set_cache|].
-      intros q X; inversion X; subst. exact Hq.
-    - split; [auto|discriminate].
+      intros _ q X; inversion X; subst. exact Hq.
+    - split; [auto|intros _ q; discriminate].
   Qed.
 
   (* compute_qname_strict *)
@@ -226,19 +244,24 @@ Section Mgr.
     good s ->
     let r := m_compute_strict split split_s ncname s u gen in
     good (fst r) /\
-    (forall q, snd r = inl q -> qg (fst r) u (exact split u /\ exact split_s u) q).
+    (SB = true \/ op_hits_ok split ncname s (OStrict u gen) = true ->
+     forall q, snd r = inl q -> qg (fst r) u (exact split u /\ exact split_s u) q).
   Proof.
-    intros Hg. unfold m_compute_strict.
+    intros Hg. unfold m_compute_strict. cbn [op_hits_ok].
     destruct (m_compute_good s u gen Hg) as (H1 & H3).
     destruct (m_compute split s u gen) as [s1 [q|e]]; cbn [fst snd] in *;
-      [|split; [auto|discriminate]].
+      [|split; [auto|intros _ q; discriminate]].
     destruct (ncname (snd q)).
-    { cbn [fst snd]. split; [auto|]. intros q' X; inversion X; subst.
-      destruct (H3 _ eq_refl) as [A B]. split; [exact A|]. intros [Hx _]; auto. }
+    { cbn [fst snd]. split; [auto|]. intros Hh q' X; inversion X; subst.
+      assert (Hh1 : SB = true \/ cache_okb s u = true).
+      { destruct Hh as [Hh|Hh]; [now left|right]. now apply andb_true_iff in Hh. }
+      destruct (H3 Hh1 _ eq_refl) as [A B]. split; [exact A|]. intros [Hx _]; auto. }
+    unfold cache_s_okb.
     destruct (dget (cache_s s1) u) as [q'|] eqn:Ec.
-    { cbn [fst snd]. split; [auto|]. intros q'' X; inversion X; subst.
-      destruct H1 as [_ [_ C]]. destruct (C _ _ Ec) as [A B]. split; [exact A|]. intros [_ Hx]; auto. }
-    destruct (split_s u) as [[ns' nm']|] eqn:Es; [|cbn [fst snd]; split; [auto|discriminate]].
+    { cbn [fst snd]. split; [auto|]. intros Hh q'' X; inversion X; subst.
+      destruct H1 as [_ [_ C]]. destruct (C _ _ Ec) as [A B]. split; [|intros [_ Hx]; auto].
+      destruct Hh as [Hh|Hh]; [auto|]. apply andb_true_iff in Hh. now apply boundb_true. }
+    destruct (split_s u) as [[ns' nm']|] eqn:Es; [|cbn [fst snd]; split; [auto|intros _ q0; discriminate]].
     set (s2 := m_insert_strie s1 ns').
     assert (Hg2 : good s2) by now apply good_insert_strie.
     destruct (m_prefix_for_good s2 ns' gen Hg2) as (G1 & G3).
@@ -246,27 +269,31 @@ Section Mgr.
     - assert (Hq : qg s3 u (exact split_s u) (p, ns', nm')).
       { split; cbn [fst snd]; [now apply G3|]. intros Hx. now apply Hx. }
       split; [now apply good_set_cache_s|].
-      intros q0 X; inversion X; subst. destruct Hq as [A B]. split; [exact A|]. intros [_ Hx]; auto.
-    - split; [auto|discriminate].
+      intros _ q0 X; inversion X; subst. destruct Hq as [A B]. split; [exact A|]. intros [_ Hx]; auto.
+    - split; [auto|intros _ q0; discriminate].
   Qed.
 
   Lemma m_normalize_good s u :
     good s ->
     let r := m_normalize split s u in
     good (fst r) /\
-    (forall q, snd r = inr (inl q) -> qg (fst r) u (exact split u) q) /\
+    (SB = true \/ op_hits_ok split ncname s (ONorm u) = true ->
+     forall q, snd r = inr (inl q) -> qg (fst r) u (exact split u) q) /\
     (forall x, snd r = inl x -> x = angle u).
   Proof.
-    intros Hg. unfold m_normalize.
+    intros Hg. unfold m_normalize. cbn [op_hits_ok].
     destruct (split u) as [[ns nm]|];
-      [|cbn [fst snd]; split; [auto|split; [discriminate|]]; intros x X; now inversion X].
+      [|cbn [fst snd]; split; [auto|split; [intros _ q; discriminate|]]; intros x X; now inversion X].
     set (s1 := m_insert_strie s ns).
     assert (Hg1 : good s1) by now apply good_insert_strie.
-    destruct (dget (n2p s1) ns).
+    assert (En : n2p s1 = n2p s /\ cache_okb s1 u = cache_okb s u).
+    { unfold s1, m_insert_strie. destruct (memb str_eqb ns (strie s)); auto. }
+    destruct En as [En Ec]. rewrite En.
+    destruct (dget (n2p s) ns).
     - destruct (m_compute_good s1 u true Hg1) as (H1 & H3).
       cbn [fst snd]. split; [auto|split; [|discriminate]].
-      intros q X. apply H3. now inversion X.
-    - cbn [fst snd]. split; [auto|split; [discriminate|]]. intros x X; now inversion X.
+      intros Hh q X. apply H3; [rewrite Ec; exact Hh|now inversion X].
+    - cbn [fst snd]. split; [auto|split; [intros _ q; discriminate|]]. intros x X; now inversion X.
   Qed.
 
   Lemma m_reset_good s : good s -> good (m_reset s).
@@ -357,7 +384,7 @@ Section Mgr.
   Lemma m_step_good s o :
     good s ->
     good (fst (m_step split split_s ncname s o)) /\
-    (op_exact o ->
+    (SB = true \/ op_hits_ok split ncname s o = true -> op_exact o ->
      snap_ok o (snap_of (fst (m_step split split_s ncname s o)) (snd (m_step split split_s ncname s o))) = true).
   Proof.
     intros Hg. unfold snap_ok, snap_of. cbn [s_list s_rev s_api s_res].
@@ -365,68 +392,68 @@ Section Mgr.
     - (* bind *)
       pose proof (m_bind_good s p n ov rep Hg) as M.
       destruct (m_bind s p n ov rep) as [s' e]. cbn [fst snd] in *.
-      destruct M as [G R]. split; [exact G|]. intros _.
+      destruct M as [G R]. split; [exact G|]. intros _ _.
       rewrite (bij_ok_of_bij s' (proj1 G)). cbn [andb].
       destruct R as [->|(-> & p0 & -> & Hs)]; [reflexivity|exact Hs].
     - (* qname *)
       destruct (m_compute_good s u true Hg) as (G & Q).
       destruct (m_compute split s u true) as [s' [q|e]]; cbn [fst snd] in *;
-        (split; [exact G|]); intros Hx; rewrite (bij_ok_of_bij s' (proj1 G)); cbn [andb res_ok]; auto.
-      destruct (Hx u eq_refl) as [X1 X2].
-      rewrite str_eqb_refl, (qn_ok_of_qg s' u _ q (Q _ eq_refl) X1), (exp_ok_qname s' u _ q (Q _ eq_refl) X1).
+        (split; [exact G|]); intros Hh Hx; rewrite (bij_ok_of_bij s' (proj1 G)); cbn [andb res_ok]; auto.
+      destruct (Hx u eq_refl) as [X1 X2]. specialize (Q Hh _ eq_refl).
+      rewrite str_eqb_refl, (qn_ok_of_qg s' u _ q Q X1), (exp_ok_qname s' u _ q Q X1).
       reflexivity.
     - (* curie *)
       destruct (m_compute_good s u gen Hg) as (G & Q).
       destruct (m_compute split s u gen) as [s' [q|e]]; cbn [fst snd] in *;
-        (split; [exact G|]); intros Hx; rewrite (bij_ok_of_bij s' (proj1 G)); cbn [andb res_ok]; auto.
-      destruct (Hx u eq_refl) as [X1 X2].
-      rewrite str_eqb_refl, (qn_ok_of_qg s' u _ q (Q _ eq_refl) X1), (exp_ok_curie s' u _ q (Q _ eq_refl) X1).
+        (split; [exact G|]); intros Hh Hx; rewrite (bij_ok_of_bij s' (proj1 G)); cbn [andb res_ok]; auto.
+      destruct (Hx u eq_refl) as [X1 X2]. specialize (Q Hh _ eq_refl).
+      rewrite str_eqb_refl, (qn_ok_of_qg s' u _ q Q X1), (exp_ok_curie s' u _ q Q X1).
       reflexivity.
     - (* compute_qname *)
       destruct (m_compute_good s u gen Hg) as (G & Q).
       destruct (m_compute split s u gen) as [s' [q|e]]; cbn [fst snd] in *;
-        (split; [exact G|]); intros Hx; rewrite (bij_ok_of_bij s' (proj1 G)); cbn [andb res_ok]; auto.
+        (split; [exact G|]); intros Hh Hx; rewrite (bij_ok_of_bij s' (proj1 G)); cbn [andb res_ok]; auto.
       destruct (Hx u eq_refl) as [X1 X2].
-      apply (qn_ok_of_qg s' u _ q (Q _ eq_refl) X1).
+      apply (qn_ok_of_qg s' u _ q (Q Hh _ eq_refl) X1).
     - (* compute_qname_strict *)
       destruct (m_compute_strict_good s u gen Hg) as (G & Q).
       destruct (m_compute_strict split split_s ncname s u gen) as [s' [q|e]]; cbn [fst snd] in *;
-        (split; [exact G|]); intros Hx; rewrite (bij_ok_of_bij s' (proj1 G)); cbn [andb res_ok]; auto.
-      apply (qn_ok_of_qg s' u _ q (Q _ eq_refl) (Hx u eq_refl)).
+        (split; [exact G|]); intros Hh Hx; rewrite (bij_ok_of_bij s' (proj1 G)); cbn [andb res_ok]; auto.
+      apply (qn_ok_of_qg s' u _ q (Q Hh _ eq_refl) (Hx u eq_refl)).
     - (* normalizeUri *)
       destruct (m_normalize_good s u Hg) as (G & Q & A).
       destruct (m_normalize split s u) as [s' [x|[q|e]]]; cbn [fst snd] in *;
-        (split; [exact G|]); intros Hx; rewrite (bij_ok_of_bij s' (proj1 G)); cbn [andb res_ok]; auto.
+        (split; [exact G|]); intros Hh Hx; rewrite (bij_ok_of_bij s' (proj1 G)); cbn [andb res_ok]; auto.
       + rewrite (A x eq_refl). apply str_eqb_refl.
-      + destruct (Hx u eq_refl) as [X1 X2].
-        rewrite str_eqb_refl, (qn_ok_of_qg s' u _ q (Q _ eq_refl) X1), (exp_ok_curie s' u _ q (Q _ eq_refl) X1).
+      + destruct (Hx u eq_refl) as [X1 X2]. specialize (Q Hh _ eq_refl).
+        rewrite str_eqb_refl, (qn_ok_of_qg s' u _ q Q X1), (exp_ok_curie s' u _ q Q X1).
         reflexivity.
     - (* expand_curie *)
-      cbn [fst snd]. split; [exact Hg|]. intros _.
+      cbn [fst snd]. split; [exact Hg|]. intros _ _.
       rewrite (bij_ok_of_bij s (proj1 Hg)). cbn [andb].
       destruct (m_expand s c) as [x|e] eqn:E; cbn [res_ok]; auto. now apply expand_ok_model.
     - (* reset *)
-      cbn [fst snd]. pose proof (m_reset_good s Hg) as G. split; [exact G|]. intros _.
+      cbn [fst snd]. pose proof (m_reset_good s Hg) as G. split; [exact G|]. intros _ _.
       rewrite (bij_ok_of_bij _ (proj1 G)). reflexivity.
     - (* outside the model *)
-      cbn [fst snd]. split; [exact Hg|]. intros _.
+      cbn [fst snd]. split; [exact Hg|]. intros _ _.
       rewrite (bij_ok_of_bij s (proj1 Hg)). reflexivity.
   Qed.
 
-  Lemma m_run_ok ops : forall s,
+  Lemma m_run_ok ops : SB = true -> forall s,
     good s -> (forall o, In o ops -> op_exact o) ->
     all_ok ops (m_run split split_s ncname s ops) = true.
   Proof.
-    induction ops as [|o r IH]; intros s Hg Hx; cbn [m_run m_final all_ok] in *; auto.
-    destruct (m_step_good s o Hg) as [G S].
+    intros HB. induction ops as [|o r IH]; intros s Hg Hx; cbn [m_run m_final all_ok] in *; auto.
+    destruct (m_step_good s o Hg) as [G S]. specialize (S (or_introl HB)).
     destruct (m_step split split_s ncname s o) as [s' x]. cbn [fst snd] in *.
     cbn [all_ok]. rewrite (S (Hx o (or_introl eq_refl))). cbn [andb].
     apply IH; auto. intros o' Ho. apply Hx. now right.
   Qed.
 
-  Lemma m_final_good ops : forall s, good s -> good (m_final split split_s ncname s ops).
+  Lemma m_final_good ops : SB = true -> forall s, good s -> good (m_final split split_s ncname s ops).
   Proof.
-    induction ops as [|o r IH]; intros s Hg; cbn [m_final] in *; auto.
+    intros HB. induction ops as [|o r IH]; intros s Hg; cbn [m_final] in *; auto.
     apply IH. now apply m_step_good.
   Qed.
 End Mgr.
